@@ -4,6 +4,7 @@
 mod clock;
 mod evidence;
 mod mem;
+mod peer;
 mod props;
 mod refcodec;
 mod rng;
@@ -71,6 +72,13 @@ fn main() {
     }
     let verif_dir = PathBuf::from(std::env::var("VERIF_DIR").unwrap_or_else(|_| "/verif".to_string()));
     mem::install_panic_hook();
+    // Pre-warm remoc's once-per-process thread probe (a raw std::thread): un-warmed, the paused clock of the
+    // first run would auto-advance while that thread starts.
+    {
+        let rt = tokio::runtime::Builder::new_current_thread().enable_time().build().unwrap();
+        let ok = rt.block_on(remoc::exec::are_threads_available());
+        assert!(ok, "threads must be available in the sandbox");
+    }
     let ctx = evidence::Ctx { id, tier, seed, threads, verif_dir, started: Instant::now(), replay };
     let code = match props::dispatch(&ctx) {
         Some(c) => c,
